@@ -4,14 +4,6 @@ open Ebv.Ebpf
 
 /-! Python's integer semantics and the homomorphism ℤ → bit vectors -/
 
-/-- a width in which `a` fits as a signed number -/
-def zBits (a : Int) : Nat := a.natAbs.log2 + 2
-
-/-- Python's `&`, `|`, `^` on unbounded integers: two's complement in a width both operands fit in -/
-def zBitop (f : (n : Nat) → BitVec n → BitVec n → BitVec n) (a b : Int) : Int :=
-  let n := max (zBits a) (zBits b)
-  (f n (BitVec.ofInt n a) (BitVec.ofInt n b)).toInt
-
 theorem zBits_fits (a : Int) (n : Nat) (h : zBits a ≤ n) : a.bmod (2 ^ n) = a := by
   have h1 : a.natAbs < 2 ^ (a.natAbs.log2 + 1) := Nat.lt_log2_self
   unfold zBits at h
@@ -62,10 +54,6 @@ theorem zBitop_hom (f : (n : Nat) → BitVec n → BitVec n → BitVec n)
   · have : BitVec.ofInt w (f n (BitVec.ofInt n a) (BitVec.ofInt n b)).toInt
         = (f n (BitVec.ofInt n a) (BitVec.ofInt n b)).signExtend w := rfl
     rw [this, hse, signExtend_ofInt_fits a ha, signExtend_ofInt_fits b hb]
-
-def zOr (a b : Int) : Int := zBitop (fun _ x y => x ||| y) a b
-def zAnd (a b : Int) : Int := zBitop (fun _ x y => x &&& y) a b
-def zXor (a b : Int) : Int := zBitop (fun _ x y => x ^^^ y) a b
 
 theorem ofInt_zOr (w : Nat) (a b : Int) : BitVec.ofInt w (zOr a b) = BitVec.ofInt w a ||| BitVec.ofInt w b :=
   zBitop_hom _ (fun _ _ _ _ => BitVec.setWidth_or) (fun _ _ _ _ => BitVec.signExtend_or) a b w
